@@ -193,8 +193,33 @@ static void op_far(const McArg *a) {
     check_path(h, cur, -1, NULL);
     check_path(cur, h, -1, NULL);
 }
-const McOp MC_OPS[] = {{"from", "h", op_from}, {"path", "hh", op_path}, {"ball", "hi", op_ball}, {"far", "hii", op_far}};
-const int MC_NOPS = 4;
+// line(a, dir, L): long straight lines from origins that lie far from their base-cell centre (large local coordinates): the target is picked
+// with the library's own localIjToCell(a, ij(a) + t*dir) (inputs need not be independent), the path is judged as always by G_geo adjacency
+static const int LAX[6][2] = {{1, 0}, {0, 1}, {1, 1}, {-1, 0}, {0, -1}, {-1, -1}};
+static const double LFRAC[5] = {0.05, 0.381966, 0.141593, 0.707107, 0.93};
+#define NLDIR 30
+static void op_line(const McArg *a) {
+    uint64_t h = a[0].u, b = 0;
+    int dir = (int)a[1].i, L = (int)a[2].i;
+    ginit();
+    CoordIJ ij0, ij;
+    if (dir < 0 || dir >= NLDIR || cellToLocalIj(h, h, 0, &ij0)) return;
+    // L steps along one hexagonal axis plus frac*L steps along the next one: the line crosses cells at ever-changing offsets
+    int k = dir % 6, side = (int)(L * LFRAC[dir / 6]);
+    ij.i = ij0.i + LAX[k][0] * L + LAX[(k + 1) % 6][0] * side;
+    ij.j = ij0.j + LAX[k][1] * L + LAX[(k + 1) % 6][1] * side;
+    if (localIjToCell(h, &ij, 0, &b) || !spec_valid(b)) {
+        mc_ctr(3, 1);
+        return;
+    }
+    mc_nontrivial();
+    check_path(h, b, -1, NULL);
+    check_path(b, h, -1, NULL);
+    if (G.n > 1500000) og_clear(&G);
+}
+enum { OP_LINE = 4 };
+const McOp MC_OPS[] = {{"from", "h", op_from}, {"path", "hh", op_path}, {"ball", "hi", op_ball}, {"far", "hii", op_far}, {"line", "hii", op_line}};
+const int MC_NOPS = 5;
 
 static int g_res;
 static void ph_from(void *u) {
@@ -230,13 +255,26 @@ static void ph_far(void *u) {
                 MC_RUN(OP_FAR, H(g_dom.v[i]), I(d), I(steps[s]));
             }
 }
+static U64Vec g_corner;
+static void ph_line(void *u) {
+    static const int Ls[] = {60, 190, 340, 500, 700, 1000, 1600, 2100, 2800};
+    uint64_t idx = 0;
+    for (size_t i = 0; i < g_corner.n; i++)
+        for (int d = 0; d < NLDIR; d += (mc_thorough ? 1 : 2))
+            for (int s = 0; s < 9; s++, idx++) {
+                if (!mc_mine(idx)) continue;
+                if (mc_expired()) return;
+                MC_RUN(OP_LINE, H(g_corner.v[i]), I(d + (mc_thorough ? 0 : (int)(i & 1))), I(Ls[s]));
+            }
+}
 int main(int argc, char **argv) {
     mc_init(argc, argv);
     int fullmax = mc_thorough ? 3 : 2;
     g_R = mc_thorough ? 8 : 5;
     snprintf(mc_bounds, sizeof mc_bounds,
              "all ordered pairs of FULL(0..%d)%s; balls of radius %d around FINE level %d origins at resolutions %d..15; long paths of 10/100/500 steps "
-             "in 6 headings from PENT(r,1) origins and IDX base cells at r in {5,10,15}",
+             "in 6 headings from PENT(r,1) origins and IDX base cells at r in {5,10,15}; straight lines of 60..2800 cells in 16 (quick: 8) IJ directions from "
+             "origins with digit strings d^r,(d e)^r/2 (far from the base-cell centre, local coordinates up to 1.4e6) at r = 13..15",
              fullmax, mc_thorough ? "" : " plus PENT(3,3) origins x all of FULL(3)", g_R, mc_thorough ? 1 : 2, fullmax + 1);
     for (g_res = 0; g_res <= fullmax; g_res++) {
         dg_build_parallel(g_res);
@@ -264,5 +302,20 @@ int main(int argc, char **argv) {
     }
     uv_sortuniq(&g_dom);
     mc_phase("long paths", ph_far, NULL);
+    // origins far from their base-cell centre: digit strings d^r and (d e)^r/2 under a few base cells, at the three finest resolutions
+    {
+        static const int bcs[] = {0, 15, 37, 61, 90, 121, 4, 58};
+        for (int r = 15; r >= 13; r--)
+            for (unsigned b = 0; b < (mc_thorough ? 8 : 4); b++)
+                for (int d1 = 1; d1 <= 6; d1++)
+                    for (int d2 = d1; d2 <= 6; d2 += (mc_thorough ? 1 : 3)) {
+                        int dg[15];
+                        for (int q = 0; q < 15; q++) dg[q] = (q & 1) ? d2 : d1;
+                        uint64_t h = spec_mk(r, bcs[b], dg);
+                        if (spec_valid(h)) uv_push(&g_corner, h);
+                    }
+        uv_sortuniq(&g_corner);
+    }
+    mc_phase("long lines from far-corner origins (res 13-15)", ph_line, NULL);
     return mc_finish();
 }
